@@ -10,6 +10,7 @@ import EngineModel.Driver.Text
 import EngineModel.Driver.Values
 import EngineModel.Table.Track
 import EngineModel.Table.Lists
+import EngineModel.Table.Info
 
 open EngineModel EngineModel.Text EngineModel.Table
 
@@ -163,6 +164,8 @@ structure St where
   stmts : Option TStmts := none
   t : TDb := TDb.empty
   l : LDb := LDb.empty
+  /-- Information.currentPlayedIndiciator (random at creation: known once `inf.setcpi` ran) -/
+  cpi : Int := 0
 
 instance : Inhabited St := ⟨{}⟩
 
@@ -294,6 +297,30 @@ def step0 (st : St) (cmd : String) (args : List String) : St × String :=
       | some l => ({ st with l := eClear st.l l }, "ok")
       | none => (st, "bad-op int")
     | "tpe.raw", [] => (st, "ok " ++ sRaw ECol.all ECol.name st.l.peSeq st.l.pe)
+    | "tpe.get3", [l, t, u] =>
+      match l.toInt?, t.toInt?, parseHexBytes u with
+      | some l, some t, some u => (st, renderRow EField.all (eGet3 genLStmts st.l l t u))
+      | _, _, _ => (st, "bad-op args")
+    | "tpe.list", [l] =>
+      match l.toInt? with
+      | some l => (st, (eGetForList genLStmts st.l l).render fun gs =>
+          "[" ++ " | ".intercalate (gs.map (sRowOf EField.all)) ++ "]")
+      | none => (st, "bad-op int")
+    | "tpe.tracks", [l] =>
+      match l.toInt? with
+      | some l => (st, (eTrackIds genLStmts st.l l).render showIds)
+      | none => (st, "bad-op int")
+    -- information_table
+    | "inf.get", [] =>
+      (st, (iGet genIStmts (infoRow s st.t.uuid st.cpi)).render (sRowOf IField.all))
+    | "inf.setcpi", [v] =>
+      match v.toInt? with
+      | some v =>
+        -- the model row is rebuilt from (uuid, cpi): read the indicator back from the updated row
+        let raw := iSetCpi genIStmts (infoRow s st.t.uuid st.cpi) v
+        ({ st with cpi := readInt (raw .currentPlayedIndiciator) }, "ok")
+      | none => (st, "bad-op int")
+    | "inf.raw", [] => (st, "ok " ++ sRaw ICol.all ICol.name 1 [infoRow s st.t.uuid st.cpi])
     | _, _ => (st, "bad-op unknown")
   | _, _ => (st, "bad-op no table-api library")
 
@@ -309,6 +336,65 @@ def pVal0 : P Val := do
 def pSchema : P Schema2 := lift schemaOf
 def pField : P TField := lift fieldOf
 def pIntAny : P Int := lift fun s => s.toInt?
+
+/-! ### dumps for the binding cross-check (tools/props/_tableapi.py `probe`)
+
+`c18.spec <table> [schema]`: the Spec's member ↔ column pairing (Table/Names.lean);
+`c18.bind <table> <stmt> [schema]`: the pairing of the regenerated binding table
+(Gen/Bindings.lean), as `member:column` / `member:-` items.  The cross-check
+compares both with the pairing *observed* on the real library. -/
+
+def sWB {C F : Type} (cn : C → String) (fn : F → String) (ps : List (WB C F)) : String :=
+  unwords (ps.map fun p => match p.src with
+    | .field f _ => fn f ++ ":" ++ cn p.col
+    | .const _ => "-:" ++ cn p.col)
+
+def sRB {C F : Type} (cn : C → String) (fn : F → String) (sel : List (RB C F)) : String :=
+  unwords (sel.map fun b => match b.src with
+    | .col c _ _ => fn b.field ++ ":" ++ cn c
+    | _ => fn b.field ++ ":-")
+
+def sAcc (l : List (Acc TCol TField Schema2)) : String :=
+  unwords (l.map fun a => a.field.name ++ ":" ++ a.col.name)
+
+def specDump : List String → String
+  | ["track", n] =>
+    match schemaOf n with
+    | some s => "ok " ++ unwords (TField.all.map fun f => f.name ++ ":" ++ (if f.present s then f.col.name else "-"))
+    | none => "bad-op schema"
+  | ["playlist"] => "ok " ++ unwords (PField.all.map fun f => f.name ++ ":" ++ f.col.name)
+  | ["entity"] => "ok " ++ unwords (EField.all.map fun f => f.name ++ ":" ++ f.col.name)
+  | ["info"] => "ok " ++ unwords (IField.all.map fun f => f.name ++ ":" ++ f.col.name)
+  | _ => "bad-op args"
+
+def bindDump : List String → String
+  | ["track", what, n] =>
+    match schemaOf n with
+    | none => "bad-op schema"
+    | some s =>
+      match genStmts s with
+      | none => "bad-op no-statements"
+      | some st =>
+        match what with
+        | "ins" => "ok " ++ sWB TCol.name TField.name st.ins
+        | "upd" => "ok " ++ sWB TCol.name TField.name st.upd
+        | "sel" => "ok " ++ sRB TCol.name TField.name st.sel
+        | "getters" => "ok " ++ sAcc st.getters
+        | "setters" => "ok " ++ sAcc st.setters
+        | _ => "bad-op stmt"
+  | ["playlist", "ins"] => "ok " ++ sWB PCol.name PField.name genLStmts.pIns
+  | ["playlist", "updsimple"] => "ok " ++ sWB PCol.name PField.name genLStmts.pUpdSimple
+  | ["playlist", "updfull"] => "ok " ++ sWB PCol.name PField.name genLStmts.pUpdFull
+  | ["playlist", "sel"] => "ok " ++ sRB PCol.name PField.name genLStmts.pSel
+  | ["entity", "ins"] => "ok " ++ sWB ECol.name EField.name genLStmts.eIns
+  | ["entity", "sel"] => "ok " ++ sRB ECol.name EField.name genLStmts.eSel
+  | ["entity", "sel3"] => "ok " ++ sRB ECol.name EField.name genLStmts.eSel3
+  | ["entity", "sellist"] => "ok " ++ sRB ECol.name EField.name genLStmts.eSelList
+  | ["entity", "removewhere"] =>
+    "ok " ++ unwords (genLStmts.eRemoveWhere.map fun ck => ck.1.name ++ ":" ++ toString ck.2)
+  | ["info", "sel"] => "ok " ++ sRB ICol.name IField.name genIStmts.sel
+  | ["info", "setcpi"] => "ok " ++ genIStmts.setCpi.name
+  | _ => "bad-op args"
 
 def specTable (cmd : String) (args : List String) : Option String :=
   match cmd with
@@ -348,6 +434,21 @@ def specTable (cmd : String) (args : List String) : Option String :=
         pure (fromAcc f v)) args with
       | some v => "ok " ++ sFVal v
       | none => "bad-op args"
+  | "c18.norm.info" =>
+    some <| match runP (do
+        let s ← pSchema; let u ← pBytes; let c ← pIntAny
+        pure (normInfo s u c)) args with
+      | some r => "ok " ++ sRowOf IField.all r
+      | none => "bad-op args"
+  | "c18.set.info" =>
+    some <| match runP (do
+        let v ← pIntAny
+        let r ← pRowOf IField.all IField.ty
+        pure (normInfoSet v r)) args with
+      | some r => "ok " ++ sRowOf IField.all r
+      | none => "bad-op args"
+  | "c18.spec" => some (specDump args)
+  | "c18.bind" => some (bindDump args)
   | _ => none
 
 def step (st : St) (cmd : String) (args : List String) : St × String :=
